@@ -17,12 +17,61 @@ impl Time {
 // ---- paths -------------------------------------------------------------------
 #[verifier::external_body] pub struct Path { _opaque: () }
 pub struct PathBuf { pub p: Path }
+impl std::ops::Deref for PathBuf {
+    type Target = Path;
+    #[verifier::external_body]
+    fn deref(&self) -> (r: &Path) ensures *r == self.p { unimplemented!() }
+}
+impl Clone for PathBuf {
+    #[verifier::external_body]
+    fn clone(&self) -> (r: PathBuf) ensures r == *self { unimplemented!() }
+}
+impl PathBuf {
+    #[verifier::external_body]
+    pub fn join(&self, name: &str) -> (r: PathBuf) { unimplemented!() }
+    #[verifier::external_body]
+    pub fn parent(&self) -> (r: Option<&Path>) { unimplemented!() }
+    #[verifier::external_body]
+    pub fn as_path(&self) -> (r: &Path) ensures *r == self.p { unimplemented!() }
+}
+impl Path {
+    #[verifier::external_body]
+    pub fn join(&self, name: &str) -> (r: PathBuf) { unimplemented!() }
+    #[verifier::external_body]
+    pub fn to_path_buf(&self) -> (r: PathBuf) ensures r.p == *self { unimplemented!() }
+    #[verifier::external_body]
+    pub fn exists(&self) -> (r: bool) { unimplemented!() }
+}
+#[verifier::external_body]
+pub fn fatal_create_dir_all(path: &Path) -> (r: Result<(), Failed>) { unimplemented!() }
+
+// Path-level primitives of std::fs / utils::fatal that would change a stored point file
+// behind the back of persist. Their permission (`the bytes that end up at the target are a
+// complete point` / `the target is not a stored point`) cannot be established by anything
+// in this unit, so a use of them in the functions under contract is reported.
+pub uninterp spec fn may_replace(target: Path) -> bool;
+#[verifier::external_body]
+pub fn fs_rename(from: &Path, to: &Path) -> (r: Result<(), IoError>) requires may_replace(*to) { unimplemented!() }
+#[verifier::external_body]
+pub fn fatal_rename(from: &Path, to: &Path) -> (r: Result<(), Failed>) requires may_replace(*to) { unimplemented!() }
+#[verifier::external_body]
+pub fn fs_copy(from: &Path, to: &Path) -> (r: Result<u64, IoError>) requires may_replace(*to) { unimplemented!() }
+#[verifier::external_body]
+pub fn fs_write(path: &Path, contents: &[u8]) -> (r: Result<(), IoError>) requires may_replace(*path) { unimplemented!() }
+#[verifier::external_body]
+pub fn fatal_write_file(path: &Path, contents: &[u8]) -> (r: Result<(), Failed>) requires may_replace(*path) { unimplemented!() }
+#[verifier::external_body]
+pub fn fs_remove_file(path: &Path) -> (r: Result<(), IoError>) requires may_replace(*path) { unimplemented!() }
+#[verifier::external_body]
+pub fn fatal_remove_file(path: &Path) -> (r: Result<(), Failed>) requires may_replace(*path) { unimplemented!() }
 
 // ---- files: the ghost content of the handles a function owns -----------------
 // Anything bytes can be appended to (std::io::Write). `written()` is everything
 // written through the handle so far.
 pub trait IoWrite {
     spec fn written(&self) -> Seq<u8>;
+    // `bytes` is a state the underlying file may be in (between two steps / at a kill)
+    spec fn state_ok(&self, bytes: Seq<u8>) -> bool;
 }
 // After a failed write an arbitrary prefix of the data may have been appended.
 pub open spec fn appended(old_w: Seq<u8>, new_w: Seq<u8>, data: Seq<u8>, ok: bool) -> bool {
@@ -36,9 +85,7 @@ impl File {
     pub uninterp spec fn path(&self) -> Path;       // the path it was opened / persisted at
     pub uninterp spec fn content(&self) -> Seq<u8>; // the bytes of the file
 }
-impl IoWrite for File {
-    open spec fn written(&self) -> Seq<u8> { self.content() }
-}
+
 
 // std::io::BufReader<File>: the file plus a read position.
 #[verifier::external_body] #[verifier::reject_recursive_types(T)] pub struct BufReader<T> { _t: T }
@@ -55,6 +102,15 @@ impl BufReader<File> {
             final(self).inner() == old(self).inner(),
             r is Ok ==> (to matches SeekFrom::Start(n) ==> final(self).pos() == n as int),
     { unimplemented!() }
+    #[verifier::external_body]
+    pub fn get_ref(&self) -> (r: &File) ensures *r == self.inner() { unimplemented!() }
+    #[verifier::external_body]
+    pub fn into_inner(self) -> (r: File) ensures r == self.inner() { unimplemented!() }
+    #[verifier::external_body]
+    pub fn stream_position(&mut self) -> (r: Result<u64, IoError>)
+        ensures final(self).inner() == old(self).inner(), final(self).pos() == old(self).pos(),
+                r matches Ok(n) ==> n as int == old(self).pos(),
+    { unimplemented!() }
 }
 pub enum SeekFrom { Start(u64), End(i64), Current(i64) }
 
@@ -64,8 +120,20 @@ pub enum SeekFrom { Start(u64), End(i64), Current(i64) }
 impl NamedTempFile {
     pub uninterp spec fn content(&self) -> Seq<u8>;
 }
+// A temporary file is never read by anybody: every state of it is fine.
 impl IoWrite for NamedTempFile {
     open spec fn written(&self) -> Seq<u8> { self.content() }
+    open spec fn state_ok(&self, bytes: Seq<u8>) -> bool { true }
+}
+impl NamedTempFile {
+    #[verifier::external_body]
+    pub fn new_in(dir: &PathBuf) -> (r: Result<NamedTempFile, IoError>)
+        ensures r matches Ok(t) ==> t.content().len() == 0,
+    { unimplemented!() }
+    #[verifier::external_body]
+    pub fn path(&self) -> (r: &Path) { unimplemented!() }
+    #[verifier::external_body]
+    pub fn as_file(&self) -> (r: &File) { unimplemented!() }
 }
 // std::io::BufWriter<NamedTempFile>; `written()` includes buffered bytes,
 // `into_inner` flushes them.
@@ -89,6 +157,20 @@ impl BufWriter<NamedTempFile> {
 }
 impl IoWrite for BufWriter<NamedTempFile> {
     open spec fn written(&self) -> Seq<u8> { self.buffered() }
+    open spec fn state_ok(&self, bytes: Seq<u8>) -> bool { true }
+}
+impl BufWriter<NamedTempFile> {
+    #[verifier::external_body]
+    pub fn get_ref(&self) -> (r: &NamedTempFile) { unimplemented!() }
+    // flushing moves buffered bytes to the file; the logical content is unchanged
+    #[verifier::external_body]
+    pub fn flush(&mut self) -> (r: Result<(), IoError>)
+        ensures final(self).buffered() == old(self).buffered(),
+    { unimplemented!() }
+    #[verifier::external_body]
+    pub fn write_all(&mut self, buf: &[u8]) -> (r: Result<(), IoError>)
+        ensures appended(old(self).buffered(), final(self).buffered(), buf@, r is Ok),
+    { unimplemented!() }
 }
 #[verifier::external_body] pub struct IntoInnerError { _opaque: () }
 impl IntoInnerError {
@@ -97,3 +179,71 @@ impl IntoInnerError {
 }
 
 pub assume_specification<T: core::marker::Destruct> [std::mem::drop] (_0: T);
+// ---- std functions without a vstd specification (ASSUMED: their std definitions).
+// Declared so that a refactoring that starts using one of them is verified, not rejected.
+pub assume_specification<T: Ord + core::marker::Destruct> [std::cmp::min] (a: T, b: T) -> (r: T)
+    ensures <T as vstd::std_specs::cmp::OrdSpec>::obeys_cmp_spec() ==> r == (if vstd::std_specs::cmp::OrdSpec::cmp_spec(&b, &a) == std::cmp::Ordering::Less { b } else { a }),
+;
+pub assume_specification<T: Ord + core::marker::Destruct> [std::cmp::max] (a: T, b: T) -> (r: T)
+    ensures <T as vstd::std_specs::cmp::OrdSpec>::obeys_cmp_spec() ==> r == (if vstd::std_specs::cmp::OrdSpec::cmp_spec(&b, &a) == std::cmp::Ordering::Less { a } else { b }),
+;
+pub assume_specification [std::cmp::Ordering::is_lt] (o: std::cmp::Ordering) -> (r: bool)
+    ensures r == (o == std::cmp::Ordering::Less);
+pub assume_specification [std::cmp::Ordering::is_gt] (o: std::cmp::Ordering) -> (r: bool)
+    ensures r == (o == std::cmp::Ordering::Greater);
+pub assume_specification [std::cmp::Ordering::is_le] (o: std::cmp::Ordering) -> (r: bool)
+    ensures r == (o != std::cmp::Ordering::Greater);
+pub assume_specification [std::cmp::Ordering::is_ge] (o: std::cmp::Ordering) -> (r: bool)
+    ensures r == (o != std::cmp::Ordering::Less);
+pub assume_specification<T: core::marker::Destruct> [bool::then_some] (b: bool, t: T) -> (r: Option<T>)
+    ensures r == (if b { Some(t) } else { None::<T> });
+pub assume_specification<T: core::marker::Destruct> [std::option::Option::<T>::xor] (a: Option<T>, b: Option<T>) -> (r: Option<T>)
+    ensures r == (match (a, b) { (Some(x), None) => Some(x), (None, Some(y)) => Some(y), _ => None::<T> });
+pub assume_specification<'a, T: Copy> [std::option::Option::<&T>::copied] (o: Option<&'a T>) -> (r: Option<T>)
+    ensures r == (match o { Some(x) => Some(*x), None => None::<T> });
+pub assume_specification<T: core::marker::Destruct> [std::option::Option::<T>::or] (a: Option<T>, b: Option<T>) -> (r: Option<T>)
+    ensures r == (if a is Some { a } else { b });
+pub assume_specification<T: core::marker::Destruct, U: core::marker::Destruct> [std::option::Option::<T>::and] (a: Option<T>, b: Option<U>) -> (r: Option<U>)
+    ensures r == (if a is Some { b } else { None::<U> });
+pub assume_specification<T: core::marker::Destruct, U: core::marker::Destruct> [std::option::Option::<T>::zip] (a: Option<T>, b: Option<U>) -> (r: Option<(T, U)>)
+    ensures r == (match (a, b) { (Some(x), Some(y)) => Some((x, y)), _ => None::<(T, U)> });
+pub assume_specification<T, F: FnOnce(T) -> bool + core::marker::Destruct> [std::option::Option::<T>::is_some_and] (o: Option<T>, f: F) -> (r: bool)
+    requires o matches Some(x) ==> f.requires((x,)),
+    ensures match o { Some(x) => f.ensures((x,), r), None => !r };
+pub assume_specification<T, F: FnOnce(T) -> bool + core::marker::Destruct> [std::option::Option::<T>::is_none_or] (o: Option<T>, f: F) -> (r: bool)
+    requires o matches Some(x) ==> f.requires((x,)),
+    ensures match o { Some(x) => f.ensures((x,), r), None => r };
+pub assume_specification<T: core::marker::Destruct, P: FnOnce(&T) -> bool + core::marker::Destruct> [std::option::Option::<T>::filter] (o: Option<T>, p: P) -> (r: Option<T>)
+    requires o matches Some(x) ==> p.requires((&x,)),
+    ensures match o { Some(x) => (r == Some(x) && p.ensures((&x,), true)) || (r is None && p.ensures((&x,), false)), None => r is None };
+pub assume_specification<T: core::marker::Destruct, F: FnOnce() -> Option<T> + core::marker::Destruct> [std::option::Option::<T>::or_else] (o: Option<T>, f: F) -> (r: Option<T>)
+    requires o is None ==> f.requires(()),
+    ensures match o { Some(x) => r == o, None => f.ensures((), r) };
+pub assume_specification<T, U: core::marker::Destruct, F: FnOnce(T) -> U + core::marker::Destruct> [std::option::Option::<T>::map_or] (o: Option<T>, d: U, f: F) -> (r: U)
+    requires o matches Some(x) ==> f.requires((x,)),
+    ensures match o { Some(x) => f.ensures((x,), r), None => r == d };
+pub assume_specification<T, U, D: FnOnce() -> U + core::marker::Destruct, F: FnOnce(T) -> U + core::marker::Destruct> [std::option::Option::<T>::map_or_else] (o: Option<T>, d: D, f: F) -> (r: U)
+    requires o matches Some(x) ==> f.requires((x,)), o is None ==> d.requires(()),
+    ensures match o { Some(x) => f.ensures((x,), r), None => d.ensures((), r) };
+pub assume_specification<T: core::marker::Destruct, E: core::marker::Destruct> [std::result::Result::<T, E>::unwrap_or] (x: Result<T, E>, d: T) -> (r: T)
+    ensures r == (match x { Ok(v) => v, Err(_) => d });
+pub assume_specification<T, E: core::marker::Destruct, F: core::marker::Destruct> [std::result::Result::<T, E>::or] (a: Result<T, E>, b: Result<T, F>) -> (r: Result<T, F>)
+    ensures match a { Ok(v) => r == Ok::<T, F>(v), Err(_) => r == b };
+pub assume_specification<T, E, U, F: FnOnce(T) -> Result<U, E> + core::marker::Destruct> [std::result::Result::<T, E>::and_then] (x: Result<T, E>, f: F) -> (r: Result<U, E>)
+    requires x matches Ok(v) ==> f.requires((v,)),
+    ensures match x { Ok(v) => f.ensures((v,), r), Err(e) => r == Err::<U, E>(e) };
+pub assume_specification<T, E: core::marker::Destruct, F: FnOnce(T) -> bool + core::marker::Destruct> [std::result::Result::<T, E>::is_ok_and] (x: Result<T, E>, f: F) -> (r: bool)
+    requires x matches Ok(v) ==> f.requires((v,)),
+    ensures match x { Ok(v) => f.ensures((v,), r), Err(_) => !r };
+pub assume_specification<T, E, F: FnOnce(E) -> T + core::marker::Destruct> [std::result::Result::<T, E>::unwrap_or_else] (x: Result<T, E>, f: F) -> (r: T)
+    requires x matches Err(e) ==> f.requires((e,)),
+    ensures match x { Ok(v) => r == v, Err(e) => f.ensures((e,), r) };
+pub assume_specification<T> [std::mem::replace] (dest: &mut T, src: T) -> (r: T)
+    ensures r == *old(dest), *final(dest) == src;
+pub assume_specification<T: Default + core::marker::Destruct, E: core::marker::Destruct> [std::result::Result::<T, E>::unwrap_or_default] (x: Result<T, E>) -> (r: T)
+    ensures x matches Ok(v) ==> r == v;
+pub assume_specification<T, E, U: core::marker::Destruct, F: FnOnce(T) -> U + core::marker::Destruct> [std::result::Result::<T, E>::map_or] (x: Result<T, E>, d: U, f: F) -> (r: U)
+    requires x matches Ok(v) ==> f.requires((v,)),
+    ensures match x { Ok(v) => f.ensures((v,), r), Err(_) => r == d };
+pub assume_specification [<std::cmp::Ordering as PartialEq>::eq] (a: &std::cmp::Ordering, b: &std::cmp::Ordering) -> (r: bool)
+    ensures r == (*a == *b);
